@@ -68,13 +68,13 @@ def expected_bytes(srv, fmt, expr):
 
 def listing(d):
     out = {}
-    for n in sorted(os.listdir(d)):
-        if n.endswith(".ucg") or n == ".ucg":
-            continue
-        p = os.path.join(d, n)
-        if os.path.isfile(p):
+    for root, _, names in os.walk(d):
+        for n in sorted(names):
+            if n.endswith(".ucg") or n == ".ucg":
+                continue
+            p = os.path.join(root, n)
             with open(p, "rb") as f:
-                out[n] = f.read()
+                out[os.path.relpath(p, d)] = f.read()
     return out
 
 
@@ -107,7 +107,8 @@ def work(chunk):
     states = set()
     for item in chunk:
         fmt, initial, builds = item[0], item[1], item[2]
-        stem = item[3] if len(item) > 3 else "probe"
+        stem = (item[3] if len(item) > 3 else None) or "probe"
+        invocation = item[4] if len(item) > 4 else "plain"
         d = tempfile.mkdtemp(prefix="ucgverif-c14-")
         try:
             name = stem + "." + EXT[fmt]
@@ -122,7 +123,12 @@ def work(chunk):
                     f.write(source(fmt, exprs))
                 exp = [expected_bytes(srv, fmt, e) for e in exprs]
                 acceptable = model_step(state, fmt, exprs, exp, name)
-                rc, out, err = core.run_ucg(["build", stem + ".ucg"], cwd=d)
+                # the same file named in different ways on the command line
+                os.makedirs(os.path.join(d, "sub"), exist_ok=True)
+                arg, cwd = {"plain": (stem + ".ucg", d), "dot-slash": ("./" + stem + ".ucg", d), "through-subdir": ("sub/../" + stem + ".ucg", d),
+                            "from-subdir": ("../" + stem + ".ucg", os.path.join(d, "sub")), "absolute": (os.path.join(d, stem + ".ucg"), "/"),
+                            "double-slash": (".//" + stem + ".ucg", d)}[invocation]
+                rc, out, err = core.run_ucg(["build", arg], cwd=cwd)
                 after = listing(d)
                 transitions += 1
                 states.add(core.json.dumps(sorted((k, core.hashlib.sha1(v).hexdigest()[:8]) for k, v in after.items())))
@@ -141,8 +147,9 @@ def work(chunk):
                         what = "bytes:%s" % ("empty-or-truncated" if len(after[n]) < len(a_state[n]) else "differ-from-convert")
                         if a_state[n] == SENTINEL:
                             what = "bytes:earlier-artifact-destroyed"
-                    bad = ("%s:%s:%dout:%s:%s" % (fmt, kind, len(exprs), "after-" + ("good-artifact" if state else "nothing"), what),
-                           {"fmt": fmt, "initial": initial, "builds": builds, "step": step, "stem": stem},
+                    bad = ("%s:%s:%dout:%s:%s%s" % (fmt, kind, len(exprs), "after-" + ("good-artifact" if state else "nothing"), what,
+                                                   "" if invocation == "plain" else ":invoked-" + invocation),
+                           {"fmt": fmt, "initial": initial, "builds": builds, "step": step, "stem": stem, "invocation": invocation},
                            {"rc": rc, "expected_rc": a_rc, "after": {k: v.decode("utf-8", "replace")[:200] for k, v in after.items()},
                             "expected": {k: v.decode("utf-8", "replace")[:200] for k, v in a_state.items()}, "stderr": err.decode("utf-8", "replace")[-300:]})
                     break
@@ -166,6 +173,14 @@ def traces(thorough):
         for stem in STEMS:
             yield (fmt, "empty", [[GOOD[fmt][0]]], stem)
             yield (fmt, "sentinel", [[BAD[fmt][0]]], stem)
+    # the way the file is named on the command line must not matter (0, 1 and 2 outs, convertible or not)
+    for fmt in EXT:
+        A, B, U = GOOD[fmt][0], GOOD[fmt][1], BAD[fmt][0]
+        for inv in ("dot-slash", "through-subdir", "from-subdir", "absolute", "double-slash"):
+            for exprs in ([], [A], [U], [A, B], [A, A], [U, A]):
+                for initial in ("empty", "sentinel"):
+                    yield (fmt, initial, [exprs], None, inv)
+            yield (fmt, "empty", [[A], [B]], None, inv)
     for fmt in EXT:
         vals = GOOD[fmt] + BAD[fmt]
         for initial in ("empty", "sentinel"):
@@ -189,7 +204,8 @@ def run(ctx):
     ctx.bounds = {"converters": len(EXT), "values_per_converter": {f: len(GOOD[f]) + len(BAD[f]) for f in EXT}, "sequence_length": 3 if thorough else 2}
     ctx.rule = ("per converter (8): 0, 1 and 2 out statements x a pool of convertible and unconvertible values x initial directory state "
                 "{empty, earlier artifact present}; every sequence of two (thorough three) builds over {convertible A, convertible B, "
-                "unconvertible U} in one directory. Each trace is replayed with `ucg build` and the listing + bytes compared with the model "
+                "unconvertible U} in one directory; 0 / 1 / 2 out statements once more with the file named on the command line in five other ways "
+                "(./x, sub/../x, ../x from a sub-directory, absolute from /, .//x). Each trace is replayed with `ucg build` and the listing + bytes compared with the model "
                 "after every build; expected bytes are what `convert <fmt> v` evaluates to.")
     viol = []
     states = set()
@@ -216,7 +232,7 @@ def run(ctx):
 def replay(case):
     tr = case["trace"]
     core._WORKER_SERVER = None
-    part = work([(tr["fmt"], tr["initial"], tr["builds"], tr.get("stem", "probe"))])
+    part = work([(tr["fmt"], tr["initial"], tr["builds"], tr.get("stem", "probe"), tr.get("invocation", "plain"))])
     core.worker_server().close()
     core._WORKER_SERVER = None
     return not part["viol"], {"violations": part["viol"]}
